@@ -20,7 +20,7 @@ fn other(a: Alg) -> Alg {
 fn keys(tier: Tier) -> Vec<(String, KeyPair)> {
     let mut v = vec![];
     for a in ALGS {
-        for i in 0..tier.pick(16u8, 48) {
+        for i in 0..tier.pick(48u8, 128) {
             v.push((format!("{}#{}", a.name(), i), key(a, 9, i)));
         }
     }
